@@ -809,6 +809,34 @@ def run(index, rep, tier):
         for f in sm.fns:
             pass
 
+    # ---- R20.7
+    with rep.section("R20.7"):
+        rep.rule("R20.7", "NCHAR bounds every row: inside each NEXUS cell reader every comparison with the declared NCHAR (the loop condition and each too-many-characters guard) measures the same quantity")
+        ngroups = 0
+        for q in (DIO + "nexusreader.NexusReader._read_character_states", DIO + "nexusreader.NexusReader._read_continuous_character_values"):
+            f7 = index.function(q)
+            cmps = []
+            for n in walk_no_nested(f7.node):
+                if isinstance(n, ast.Compare) and len(n.ops) == 1 and len(n.comparators) == 1:
+                    l, r = n.left, n.comparators[0]
+                    if norm(r) == "self._file_specified_nchar":
+                        cmps.append((n, norm(l)))
+                    elif norm(l) == "self._file_specified_nchar":
+                        cmps.append((n, norm(r)))
+            if len(cmps) < 2:
+                raise AnalysisError("R20.7: %s: fewer than two comparisons with the declared NCHAR" % q)
+            ngroups += 1
+            sizes = {}
+            for n, sz in cmps:
+                sizes.setdefault(sz, []).append(n)
+            major = max(sizes, key=lambda k: len(sizes[k]))
+            for sz, ns in sorted(sizes.items()):
+                for n in ns:
+                    rep.check(sz == major, "R20.7", f7.qualname, "NCHAR compared with `%s` where the other comparisons use `%s`" % (sz, major), fn_where(f7, n),
+                              "%s: `%s` measures the row like the other %d comparisons" % (f7.name, norm(n)[:60], len(sizes[major]) - (1 if sz == major else 0)),
+                              "%s compares the declared NCHAR with `%s` in `%s`, while its loop condition and the other guard(s) compare it with `%s`: the guard no longer counts the cells already stored for the taxon, so on a later interleave page a row grows past NCHAR and the reader returns a matrix wider than its own header declares instead of raising" % (f7.qualname, sz, norm(n)[:70], major))
+        rep.floor("R20.7", "cell readers with NCHAR comparisons", 2, ngroups)
+
     # ---- R20.6
     with rep.section("R20.6"):
         pr = index.function(DIO + "phylipreader.PhylipReader._read")
